@@ -210,6 +210,8 @@ def attr_doc(muts):
                 attrs = [(k, v) for k, v in attrs if k != m["a"]]
             elif m["w"] == "unknown":
                 attrs.append(("bogus", "1"))
+            elif m["w"] == "add":                        # a documented attribute with a documented value (ty carries the value)
+                attrs = [(k, v) for k, v in attrs if k != m["a"]] + [(m["a"], m["ty"])]
             else:
                 val = DOMAIN_VALUE[m["ty"]] if m["w"] == "domain" else BAD_VALUE[m["w"]]
                 attrs = [(k, val if k == m["a"] else v) for k, v in attrs]
